@@ -193,3 +193,31 @@ func (e *FactEngine) needAll(fs *FuncSrc, at ast.Node, facts ...*Fact) (missing 
 	}
 	return
 }
+
+// bodyClosure returns fs and the same-package module functions it reaches by
+// static calls (depth <= 2): a rule about "what fs does" holds for code that
+// fs delegates to a helper it could not be inlined from.
+func (p *Program) bodyClosure(fs *FuncSrc) []*FuncSrc {
+	out := []*FuncSrc{fs}
+	seen := map[*FuncSrc]bool{fs: true}
+	for depth, frontier := 0, []*FuncSrc{fs}; depth < 2 && len(frontier) > 0; depth++ {
+		var next []*FuncSrc
+		for _, f := range frontier {
+			ast.Inspect(f.Body(), func(n ast.Node) bool {
+				call, ok := n.(*ast.CallExpr)
+				if !ok {
+					return true
+				}
+				h := p.SrcOfFunc(calleeOf(&CallSite{Call: call, In: f}))
+				if h != nil && h.Decl != nil && h.Pkg == fs.Pkg && !seen[h] {
+					seen[h] = true
+					out = append(out, h)
+					next = append(next, h)
+				}
+				return true
+			})
+		}
+		frontier = next
+	}
+	return out
+}
